@@ -10,7 +10,10 @@ RSS_LIMIT_KB = 20 * 1024 * 1024
 
 
 def _features_args(features):
-    return ["--features", ",".join(features)] if features else []
+    """features: list of cargo features; the pseudo-feature "-default" switches the default set off."""
+    feats = [f for f in (features or []) if f != "-default"]
+    args = ["--no-default-features"] if "-default" in (features or []) else []
+    return args + (["--features", ",".join(feats)] if feats else [])
 
 
 def kani_cmd(harnesses, features, jobs, timeout_s, extra=()):
@@ -145,7 +148,7 @@ def is_tool_limit_check(desc):
 
 
 def run_batch(crate_dir, harnesses, features, timeout_s, jobs=None, wall_timeout=None):
-    jobs = jobs or min(12, NCPU)
+    jobs = jobs or int(os.environ.get('VERIF_JOBS', min(12, NCPU)))
     cmd = kani_cmd(harnesses, features, jobs, timeout_s)
     wall = wall_timeout or (timeout_s * (2 + len(harnesses) // jobs) + 600)
     rc, out, secs, killed = run(cmd, cwd=crate_dir, timeout=wall, mem_kb_watch=RSS_LIMIT_KB)
